@@ -14,6 +14,7 @@ CONSTANTS
   RestoreOnReturn = FALSE
   EmbRestoreAll = TRUE
   SuperCheckFirst = TRUE
+  AncestryWalk = TRUE
   GuardCanonical = TRUE
   RegisterAfterCreate = TRUE
   NsCachesInit = TRUE
